@@ -113,6 +113,17 @@ def run_impl(case):
         calls = []
         shared = JetAnalysis() if case.get("reuse") else None       # one analysis object used for every call
         outer = [] if case.get("samelist") else None                # ... and one outer list object, refilled in place per call
+        if shared is not None and case.get("abort_first") and case["calls"]:
+            # an earlier call on the same object was aborted by the documented ValueError (a hadron whose status was never set, in
+            # the LAST event, after the earlier events had their jets found); it wrote into another file
+            c0 = case["calls"][0]
+            bad = [list(ev) for ev in c0["events"]] + [[[1.0, 0.5, 0.25, 2.0, None, 1, 211]]]
+            try:
+                with contextlib.redirect_stdout(io.StringIO()):
+                    shared.perform_jet_finding(mk_events(bad), abs(c0["R"]) or 0.4, tuple(c0["eta"]), tuple(c0["pt"]),
+                                               os.path.join(d, "aborted.csv"))
+            except Exception:
+                pass
         for call in case["calls"]:
             ja = shared or JetAnalysis()
             err = None
@@ -527,6 +538,8 @@ def gen_case(rng, small=False):
         case["readtwice"] = True
     if reuse:
         case["reuse"] = True
+        if rng.random() < 0.35:
+            case["abort_first"] = True      # the object's previous call ended in the documented exception
         if rng.random() < 0.5:
             case["samelist"] = True          # the caller keeps one list object and refills it in place between the calls
     return case
